@@ -669,6 +669,25 @@ func vfNewVectorIndexOfKind(kindName string, dim int, metric DistanceKind, train
 			return nil, err
 		}
 		return idx, nil
+	case "pq", "ivfpq":
+		var idx VectorIndex
+		var err error
+		if kindName == "pq" {
+			idx, err = NewPQIndex(dim, metric, 1, 2)
+		} else {
+			idx, err = NewIVFPQIndex(dim, metric, 2, 1, 2)
+		}
+		if err != nil {
+			return nil, err
+		}
+		nodes := make([]VectorNode, len(train))
+		for i, v := range train {
+			nodes[i] = *NewVectorNodeWithID(uint32(i+1), vfCloneF32(v))
+		}
+		if err := idx.Train(nodes); err != nil {
+			return nil, err
+		}
+		return idx, nil
 	default:
 		return NewFlatIndex(dim, metric)
 	}
